@@ -35,6 +35,21 @@ CHECKS = {
     "C12": ("exploration", "runtime event-log monitor + complete enumeration of call shapes: body call log vs candidate bindings, results vs concrete filtering",
             "every (kind, arity, defaults, positional/keyword x variable/concrete/omitted) call shape is executed: concrete calls must run once and return the plain result, symbolic calls must not run at construction, and during evaluation the body must be called once per candidate binding with each parameter holding the argument written in that position",
             "distinct variables per parameter; the predicate is the only condition of the query", "4/C12"),
+    "C13": ("exploration", "runtime census monitor over random histories: weak-reference census vs results of domain-less queries, structural invariant of the registry at quiescent points",
+            "histories of create / drop / gc / relate / query / re-evaluate / forget / clear are executed on the real registry; after every query the returned instances must equal the harness census of live instances of the type (each once)",
+            "instances created before a clear() are don't-care; reclaiming requires the harness to empty krrood's query registries (C20's finding) in the 'forget' step", "4/C13"),
+    "C14": ("exploration", "runtime differential history monitor: same assertion suffix with and without a garbage-producing prefix + audit of the relation index after every sweep",
+            "each case runs the assertion suffix on a clean graph and after a prefix that creates, relates, drops and sweeps instances (recycling node indices and ids); relations and field values by object name must be equal, and every indexed relation must be an edge between live nodes",
+            "run A on a cleared graph stands for a fresh process; the index audit reads internals when present", "4/C14"),
+    "C15": ("exploration", "runtime reference-model monitor: fields and graph relations vs a fix-point closure of the asserted facts, all permutations of a bank of fact sets",
+            "fact sets are asserted in every order (bank, exhaustively) and in random orders/forms; managed fields and SymbolGraph relations must equal the reference closure (sub-property, inverse, transitive, role taker) and agree with each other",
+            "monotone workloads only; single-valued fields with several derivable values compared by membership", "4/C15"),
+    "C16": ("exploration", "runtime reference-model monitor: every write form applied in lock-step to the managed field and to a plain list/set; relations vs the closure oracle",
+            "random sequences of all eleven write forms run on a managed list and set field; after each operation the contents must equal the Python model (order, multiplicity) and finally every element ever written must carry its relations and inverse memberships",
+            "the owner has no other relations, so no inferred element can enter the written field; several PYTHONHASHSEEDs", "4/C16"),
+    "C20": ("exploration", "runtime census monitor with counterfactual ablation + generic size series of krrood-held containers over k/2k/4k iterations",
+            "histories create, relate, query and drop instances; weak references must die, nothing may remain in a fresh domain-less query or in the graph's bookkeeping after the sweep, and no krrood-held container (discovered generically) may grow with the iteration count; survivors are attributed by emptying the known query registries",
+            "histories without queries are checked strictly; with queries the listed retention finding is recognised only when the survivors die after the ablation", "4/C20"),
     "C09": ("exploration", "runtime monitor: sequential-spec oracle over an exhaustively enumerated (n, constraint) space + icontract post-conditions on the constraint classes",
             "every (solution count n<=N, constraint, bounds around n, selector, domain kind) combination is executed on the real engine and the observed (yielded prefix, exception class) is compared with the sequential specification; contracts watch assert_satisfaction on every call",
             "the harness controls n by construction; exploration is bounded by N (6 quick / 10 thorough + random n<=60)", "4/C09"),
